@@ -204,6 +204,8 @@ fn run_both(cx: &Cx, c20: bool) -> Acc {
     acc.merge(crate::props::stream::run_for_c12_c20(cx, c20));
     if !c20 {
         acc.merge(crate::sched::run_for_c12(cx));
+    } else {
+        acc.merge(crate::sched::run_for_c20(cx));
     }
     acc
 }
@@ -224,6 +226,10 @@ fn replay_both(cx: &Cx, phase: &str, case: &Value, acc: &mut Acc, c20: bool) -> 
     match phase {
         "serve" | "serve-multipart" => check_serve(&serde_json::from_value(case.clone()).map_err(dec)?, acc, c20),
         "fault-enumeration" | "fault-random" => check_fault(&serde_json::from_value(case.clone()).map_err(dec)?, acc, c20),
+        "sched-repoll" => {
+            let c: crate::sched::SchedCase = serde_json::from_value(case.clone()).map_err(dec)?;
+            crate::sched::check_c20(&c, acc).0
+        }
         "sched-sampled" => {
             let c: crate::sched::SchedCase = serde_json::from_value(case.clone()).map_err(dec)?;
             crate::sched::check_c12(&c, acc).0
